@@ -227,8 +227,8 @@ def replay(case, stats):
 def run(ctx):
     q = ctx.quick
     ctx.units("corpus", unit_corpus, [{}])
-    ctx.units("model-documents", unit_model, [{"n": 600 if q else 8000, "seed": ctx.seed, "shard": i} for i in range(4 if q else 16)], procs=16)
-    ctx.units("noisy-documents", unit_noisy, [{"n": 600 if q else 8000, "seed": ctx.seed, "shard": i} for i in range(4 if q else 16)], procs=16)
+    ctx.units("model-documents", unit_model, [{"n": 900 if q else 8000, "seed": ctx.seed, "shard": i} for i in range(8 if q else 16)], procs=16)
+    ctx.units("noisy-documents", unit_noisy, [{"n": 900 if q else 8000, "seed": ctx.seed, "shard": i} for i in range(8 if q else 16)], procs=16)
     ctx.rule = ("(a) generated documents: the location tree of the AST equals the positions the renderer put the elements at; (b) any accepted document "
                 "(generated, noisy, corpus): slicing the source (split at LF, code points) at each reported location gives back the keyword, tag, row pipe, "
                 "raw cell text or delimiter, comments are whole lines at column 1; (c) rejected documents: each error points at the first non-blank character / "
